@@ -166,6 +166,38 @@ Proof.
       exists nd, l1, l2, ser1, ev1, ev2. cbn [n_id n_slot nd]. repeat split; auto.
 Qed.
 
+(* the effect of an insertion as a predicate, so that the facts below hold for every operation that has it (the plain
+   insert above, the hinted insert of Map / MultiMap) *)
+Definition InsEff (k : kind) (key val : Z) (c : cont) (ser nid : nat) (c' : cont) (ser' nid' : nat) (ev : list event) : Prop :=
+  shape k c' /\ Forall (ins_ev_ok k) ev /\
+  ((nid' = nid /\ ser' = ser /\ c_pool c' = c_pool c /\
+    (elems c' = elems c \/
+     (assigns k = true /\ exists l1 x l2, elems c = l1 ++ x :: l2 /\ elems c' = l1 ++ set_val x val :: l2 /\ n_key x = key)))
+   \/
+   (nid' = S nid /\ exists nd l1 l2 ser1 ev1 ev2,
+       elems c = l1 ++ l2 /\ elems c' = l1 ++ nd :: l2 /\ n_id nd = nid /\
+       (ser <= ser1)%nat /\ alloc k (c_pool c) ser1 = (n_slot nd, c_pool c', ser', ev2) /\
+       ev = ev1 ++ ev2 ++ [birth k nid (n_slot nd)])).
+
+Lemma c_insert_eff k pos key val c ser nid c' ser' nid' ev :
+  shape k c -> c_insert k pos key val c ser nid = (c', ser', nid', ev) -> InsEff k key val c ser nid c' ser' nid' ev.
+Proof. intros Hs E. exact (c_insert_effect _ _ _ _ _ _ _ _ _ _ _ Hs E). Qed.
+
+Lemma c_insert_hint_eff k pos key val c ser nid c' ser' nid' ev :
+  shape k c -> c_insert_hint k pos key val c ser nid = (c', ser', nid', ev) -> InsEff k key val c ser nid c' ser' nid' ev.
+Proof.
+  intros Hs. unfold c_insert_hint. destruct (c_body c) as [l|t|l hd] eqn:Eb; try (apply c_insert_eff; exact Hs).
+  destruct (is_multi k) eqn:Em; [|apply c_insert_eff; exact Hs].
+  destruct (alloc k (c_pool c) ser) as [[[s p'] ser2] ev2] eqn:Ea. intros H; injection H as E1' E2' E3' E4'; subst c' ser' nid' ev.
+  unfold InsEff, shape, elems in *. rewrite Eb in *. cbn [c_body c_pool elems_of]. split; [exact Hs|]. split.
+  { apply Forall_app. split.
+    - apply alloc_effect in Ea. destruct Ea as [(_ & _ & _ & ->)|(_ & _ & _ & _ & _ & ->)]; repeat constructor.
+    - repeat constructor. apply birth_ok. }
+  right. split; auto.
+  destruct (hint_ins_split pos (mkNode nid s key val) t) as (l1 & l2 & E1 & E2).
+  exists (mkNode nid s key val), l1, l2, ser, [], ev2. cbn [n_id n_slot app]. repeat split; auto.
+Qed.
+
 (* ---- remove --------------------------------------------------------------------------------------- *)
 Lemma c_remove_at_effect k pos c c' ev :
   shape k c ->
